@@ -72,11 +72,18 @@ def parse_vtf(data: bytes) -> dict:
             for _ in range(nres):
                 rid, rfl, rdata = struct.unpack_from('<3sBI', data, pos)
                 pos += 8
-                entries.append({'id': rid.hex(), 'flags': rfl, 'data': rdata})
+                # a data resource points at a block "u32 size, bytes"; what stands there is logged so
+                # that the entry is judged by what a reader finds, wherever the writer put the block
+                blk = {'size': -1, 'hex': ''}
+                if not rfl & 0x02 and rid not in (b'\x01\0\0', b'\x30\0\0') and 0 <= rdata <= len(data) - 4:
+                    size, = struct.unpack_from('<I', data, rdata)
+                    if rdata + 4 + size <= len(data):
+                        blk = {'size': size, 'hex': data[rdata + 4: rdata + 4 + size].hex() if rid != b'\x10\0\0' else ''}
+                entries.append({'id': rid.hex(), 'flags': rfl, 'data': rdata, 'blk': blk})
         else:
             pos += 15
-        if pos != hsize:
-            raise ValueError(f'header size field {hsize}, table ends at {pos}')
+        if hsize < pos or hsize > len(data):
+            raise ValueError(f'header size field {hsize}, table ends at {pos}, file has {len(data)} bytes')
         return {'err': '', 'minor': minor, 'hsize': hsize, 'w': w, 'h': h, 'frames': frames, 'fmt': fmt, 'mip': mip,
                 'low': low, 'lw': lw, 'lh': lh, 'depth': depth, 'nres': nres, 'entries': entries, 'len': len(data),
                 'meta': [format(flags, 'x'), first, f32(r0), f32(r1), f32(r2), f32(bump)]}
@@ -130,6 +137,14 @@ def proj_cfg(vtf: VTF, sheet_ver: int, fill: str) -> dict:
 def proj_meta(vtf: VTF) -> list:
     return [format(vtf.flags.value, 'x'), vtf.first_frame_index, f32(vtf.reflectivity.x), f32(vtf.reflectivity.y),
             f32(vtf.reflectivity.z), f32(vtf.bumpmap_scale)]
+
+
+def low_offset(hdr: dict) -> int:
+    """Where a reader finds the low-res image: its resource entry, or right after the header before 7.3."""
+    for e in hdr.get('entries', []):
+        if e['id'] == '010000':
+            return e['data']
+    return hdr['hsize']
 
 
 def pixels_of(frame) -> list:
@@ -255,10 +270,10 @@ def round_trip(vtf: VTF, sheet_ver: int, fill: str, given: dict, variant: str, w
         rec['out'] = {'c': out_c, 'keys': proj_keys(back, True), 'meta': proj_meta(back), 'sheet': proj_sheet(back)}
         offs = {(f, slice_index(s), m): fr._fileinfo[1] for (f, s, m), fr in back._frames.items()}
         back.load()
+        lsize = FMT_INFO[c['low']][1] * c['lw'] * c['lh'] // 8 if c['low'] != 'NONE' else 0
+        lo = low_offset(rec['hdr'])
         if c['low'] != 'NONE':
-            hi0 = min(offs.values()) if offs else len(data)
-            lsize = FMT_INFO[c['low']][1] * c['lw'] * c['lh'] // 8
-            rec['low2'] = list(data[hi0 - lsize: hi0])
+            rec['low2'] = list(data[lo: lo + lsize])
             rec['lowout'] = pixels_of(back._low_res)
         if with_pix:
             bpp = FMT_INFO[c['fmt']][1] // 8
@@ -285,9 +300,7 @@ def round_trip(vtf: VTF, sheet_ver: int, fill: str, given: dict, variant: str, w
             # "storing them again changes nothing": header, resource blocks and the image block are
             # compared; the thumbnail is regenerated from the (now quantised) main image on every
             # save and is not part of the claim
-            hi = min(offs.values()) if offs else len(data)
-            lo = hi - (FMT_INFO[c['low']][1] * c['lw'] * c['lh'] // 8 if c['low'] != 'NONE' else 0)
-            rec['resave'] = len(again) == len(data) and again[:lo] == data[:lo] and again[hi:] == data[hi:]
+            rec['resave'] = len(again) == len(data) and again[:lo] == data[:lo] and again[lo + lsize:] == data[lo + lsize:]
         except Exception as exc:  # noqa: BLE001 - a file that cannot be saved again is "not identical"
             rec['resave'] = False
             sig['resave_exc'] = type(exc).__name__
@@ -538,8 +551,8 @@ def hist_record(c: dict, ops: list, seed: int, src: str) -> dict:
             fr = back._frames[f, CubeSide(sl) if c['cube'] else sl, m]
             rec['pix'].append({'k': [f, sl, m], 'raw': list(data[off: off + bits * w * h // 8]) if off >= 0 else [], 'out': pixels_of(fr)})
         if c['low'] != 'NONE':
-            hi0 = min(row[5] for row in rec['keys'])
-            rec['low2'] = list(data[hi0 - len(low_raw): hi0])
+            lo = low_offset(rec['hdr'])
+            rec['low2'] = list(data[lo: lo + len(low_raw)])
             rec['lowout'] = pixels_of(back._low_res)
     except Exception as exc:  # noqa: BLE001 - the outcome is data for the specification
         rec['exc'] = f'{type(exc).__name__}: {exc}'
